@@ -69,6 +69,9 @@ Definition min_key (l : list Z) : Z :=
     every vector sits in the list of a nearest centroid, every code byte names a nearest codeword *)
 Definition struct_specb (p : params) (im : vstate) : bool :=
   let cents := st_centroids im in
+  (* no id is resident twice among the entries that are not soft-deleted (the harness never adds
+     an id that is live): a removed-then-re-added id must leave no second, stale copy behind *)
+  nodupz (filter (fun id => negb (memz id (st_deleted im))) (map e_id (concat (st_lists im)))) &&
   forallb (fun il =>
     let '(li, l) := il in
     forallb (fun e =>
@@ -187,12 +190,13 @@ Definition probe_specb (p : params) (live : list (Z * vec)) (im : vstate) (rq : 
         | None => true
         end) live).
 
-Record hstate := { h_model : vstate; h_live : list (Z * vec); h_i : Z; h_weak : Z; h_impl : option vstate }.
+Record hstate := { h_model : vstate; h_live : list (Z * vec); h_i : Z; h_weak : Z; h_impl : option vstate;
+                   h_div : option (list Z) (* first state divergence, after which the model follows the implementation's state and only the history oracles decide *) }.
 
 Definition step_check (p : params) (h : hstate) (o : vop) : hstate + list Z :=
   let s := h_model h in
-  let next s' live' weak := inl {| h_model := s'; h_live := live'; h_i := h_i h + 1; h_weak := h_weak h + weak; h_impl := h_impl h |} in
-  let nextc s' live' weak := inl {| h_model := s'; h_live := live'; h_i := h_i h + 1; h_weak := h_weak h + weak; h_impl := None |} in
+  let next s' live' weak := inl {| h_model := s'; h_live := live'; h_i := h_i h + 1; h_weak := h_weak h + weak; h_impl := h_impl h; h_div := h_div h |} in
+  let nextc s' live' weak := inl {| h_model := s'; h_live := live'; h_i := h_i h + 1; h_weak := h_weak h + weak; h_impl := None; h_div := h_div h |} in
   match o with
   | OAdd id v err =>
       let '(s', e) := vadd_op p s id v in
@@ -230,8 +234,13 @@ Definition step_check (p : params) (h : hstate) (o : vop) : hstate + list Z :=
       end
   | ODump im =>
       if state_eqb s im then
-        inl {| h_model := s; h_live := h_live h; h_i := h_i h + 1; h_weak := h_weak h; h_impl := Some im |}
-      else inr (verdict false (struct_specb p im) [h_i h; -6])
+        inl {| h_model := s; h_live := h_live h; h_i := h_i h + 1; h_weak := h_weak h; h_impl := Some im; h_div := h_div h |}
+      else if struct_specb p im then
+        (* the implementation's state differs from the model's but still satisfies the structural
+           clauses: follow the implementation and let the history oracles look for a failing query *)
+        inl {| h_model := im; h_live := h_live h; h_i := h_i h + 1; h_weak := h_weak h; h_impl := Some im;
+               h_div := match h_div h with Some d => Some d | None => Some [h_i h; -6] end |}
+      else inr (v_violation [h_i h; -6])
   | OSearch rq err out =>
       let out := canon32_pairs out in
       match execute p s rq with
@@ -262,7 +271,11 @@ Definition step_check (p : params) (h : hstate) (o : vop) : hstate + list Z :=
                   (* a per-query cut fell inside a tie group: aggregated answers may differ
                      legitimately; only soundness is decidable here *)
                   (if snd_ok then next s (h_live h) 1 else inr (v_violation [h_i h; -1]))
-                else if match_results (if xo_single xo then xo_aggfull xo else xo_agg xo) n out then next s (h_live h) 0
+                else if match_results (if xo_single xo then xo_aggfull xo else xo_agg xo) n out then
+                  (match h_div h with
+                   | Some _ => if snd_ok then next s (h_live h) 0 else inr (v_violation [h_i h; -2])
+                   | None => next s (h_live h) 0
+                   end)
                 else inr (verdict false snd_ok (h_i h :: 0 :: flatten_pairs (firstn n (xo_agg xo))))
             end
       end
@@ -270,7 +283,10 @@ Definition step_check (p : params) (h : hstate) (o : vop) : hstate + list Z :=
 
 Fixpoint run_check (p : params) (h : hstate) (ops : list vop) : list Z :=
   match ops with
-  | [] => if h_weak h =? 0 then v_ok else [0; h_weak h]
+  | [] => match h_div h with
+          | Some d => v_diverge d
+          | None => if h_weak h =? 0 then v_ok else [0; h_weak h]
+          end
   | o :: t => match step_check p h o with
               | inl h' => run_check p h' t
               | inr v => v
@@ -280,4 +296,4 @@ Fixpoint run_check (p : params) (h : hstate) (ops : list vop) : list Z :=
 (** 200: params, ops *)
 Definition chk_vechist : P (list Z) :=
   p <- pparams ;; ops <- plist pvop ;;
-  ret (run_check p {| h_model := vinit p; h_live := []; h_i := 0; h_weak := 0; h_impl := None |} ops).
+  ret (run_check p {| h_model := vinit p; h_live := []; h_i := 0; h_weak := 0; h_impl := None; h_div := None |} ops).
